@@ -23,7 +23,7 @@ PROPS = {
         not_decided="byte offsets of classic xref entries ({:010} text), startxref, /Size, reference resolution, strict-parser acceptance (all in write_document's I/O sequence); names (see C30)",
     ),
     "C09": dict(
-        verus=["strings"],
+        verus=["strings", "incr"],
         not_decided="integers/reals (number text), arrays/dictionaries nesting, object streams, names (C30), the ISO-reader lemma for EOL handling",
     ),
     "C12": dict(
@@ -53,6 +53,10 @@ PROPS = {
     "C28": dict(
         verus=["outline"],
         not_decided="sibling/parent/first/last links of write_outline_tree/write_outline_item (pending), destinations resolve to the authored page, name trees",
+    ),
+    "C17": dict(
+        verus=["incr", "prevmerge"],
+        not_decided="write_trailer text, /ID computation (md5), that the chain parses in a reader, incremental_form_fill / incremental_text_notes field-tree resolution; termination of write_object/write_dictionary (recursion through an opaque dictionary) is not proved",
     ),
     "C05": dict(
         verus=["rc4"],
